@@ -26,6 +26,7 @@ Routines and classes for creating priors and timeslices for use in tsdate
 
 import logging
 import os
+import tempfile
 from collections import defaultdict, namedtuple
 
 import numpy as np
@@ -144,10 +145,13 @@ class ConditionalCoalescentTimes:
         if precalc_approximation_n:
             # Create lookup table based on a large n that can be used for n > ~50
             filename = self.get_precalc_cache(precalc_approximation_n)
+            self.approx_priors = None
             if os.path.isfile(filename):
                 # Have already calculated and stored this
-                self.approx_priors = np.genfromtxt(filename)
-            else:
+                self.approx_priors = self.read_precalculated_priors(
+                    filename, precalc_approximation_n
+                )
+            if self.approx_priors is None:
                 # Calc and store
                 self.approx_priors = self.precalculate_priors_for_approximation(
                     precalc_approximation_n,
@@ -264,8 +268,33 @@ class ConditionalCoalescentTimes:
         all_tips = np.arange(2, n + 1)
         prior_lookup_table[1:, 0] = all_tips / n
         prior_lookup_table[1:, 1] = conditional_coalescent_variance(n + 1)[all_tips]
-        np.savetxt(self.get_precalc_cache(n), prior_lookup_table)
+        # Write to a temporary file and rename, so that a crash or a concurrent writer
+        # can never leave a partial table under the final name
+        filename = self.get_precalc_cache(n)
+        fd, tmp_filename = tempfile.mkstemp(
+            dir=os.path.dirname(filename), prefix=os.path.basename(filename), suffix=".tmp"
+        )
+        try:
+            with os.fdopen(fd, "w") as f:
+                np.savetxt(f, prior_lookup_table)
+            os.replace(tmp_filename, filename)
+        except BaseException:
+            if os.path.exists(tmp_filename):
+                os.remove(tmp_filename)
+            raise
         return prior_lookup_table
+
+    @staticmethod
+    def read_precalculated_priors(filename, n):
+        # Return the cached lookup table, or None if the file does not hold a
+        # complete table for n tips (in which case it should be recalculated)
+        try:
+            table = np.loadtxt(filename, ndmin=2)
+        except (OSError, ValueError):
+            return None
+        if table.shape != (n, 2) or not np.all(np.isfinite(table)):
+            return None
+        return table
 
     def clear_precalculated_priors(self):
         if os.path.isfile(self.get_precalc_cache(self.n_approx)):
